@@ -52,6 +52,14 @@ theorem completeness (L : Lawful o G) (hp : o.p ≤ 2 ^ 256) {H : TagHash} (h32 
         checkOutputPubkey o H (outKey o (tweakPoint o P t)).1 s c = .ok true :=
   completeness_aux L L.y_congr hp h32 sec tree P t hdepth hP ht hQ
 
+/-- T1s (every accepted spelling names one output key): any 33/65-byte SEC form of the internal key
+    (02/03 ‖ x, 04 ‖ x ‖ ±y) gives the output key of the x-only form `02 ‖ x` — the form T3 is stated for. -/
+theorem spelling_independent (L : Lawful o G) {H : TagHash} (sec h : Bytes) (P : α) (t : Int)
+    (hP : pointFromOctets o sec = .ok P) (ht : tapTweak o H (xOnly sec) h = .ok t)
+    (hQ : L.abs (tweakPoint o P t) ≠ 0) :
+    tweakedPubkey o H (2 :: xOnly sec) h = tweakedPubkey o H sec h :=
+  spelling_independent_aux L sec h P t hP ht hQ
+
 /-- T2 (key agreement, both y parities): for `0 < d < n` and any spelling `sec` of `±d·G`, the private
     and the public tweak refuse together (exactly when `t ≥ n`), and when they answer,
     `output_prvkey · G` IS the output point: same group element, hence same x-only key and parity. -/
